@@ -1,6 +1,7 @@
 /- C15 — helper lemmas for the RFC 8285 one-byte-header walks (`getOne`, `rebuild`). Core Lean only. -/
 import RtcModel.C15Ext
 import RtcModel.Lemmas.C15Bytes
+import RtcModel.Lemmas.C15Consts
 
 namespace RtcModel.C15
 open RtcModel.Generated
@@ -34,6 +35,7 @@ theorem elem_hdr_ne_zero {id : Nat} {data : Bytes} (w : ElemOk id data) :
 theorem getOne_elem_self {id : Nat} {data : Bytes} (w : ElemOk id data) (tail : Bytes) :
     getOne id (u8 (id * 16 + (data.length - 1)) :: (data ++ tail)) = some data := by
   have := w.idPos; have := w.idLt; have := w.lenPos; have := w.lenLe
+  have := c15StopIdGet_eq
   rw [getOne]
   simp only [elem_hdr_ne_zero w, if_false, elem_hdr w]
   have h1 : (id * 16 + (data.length - 1)) / 16 = id := by omega
@@ -45,6 +47,7 @@ theorem getOne_elem_self {id : Nat} {data : Bytes} (w : ElemOk id data) (tail : 
 theorem getOne_elem_other {id id' : Nat} {data : Bytes} (w : ElemOk id data) (hne : id' ≠ id) (tail : Bytes) :
     getOne id' (u8 (id * 16 + (data.length - 1)) :: (data ++ tail)) = getOne id' tail := by
   have := w.idPos; have := w.idLt; have := w.lenPos; have := w.lenLe
+  have := c15StopIdGet_eq
   rw [getOne]
   simp only [elem_hdr_ne_zero w, if_false, elem_hdr w]
   have h1 : (id * 16 + (data.length - 1)) / 16 = id := by omega
@@ -68,7 +71,7 @@ theorem getOne_cons {b : UInt8} (hb : b ≠ 0) (id : Nat) (rest : Bytes) :
       else if b.toNat / 16 = id then
         (if b.toNat % 16 + 1 ≤ rest.length then some (rest.take (b.toNat % 16 + 1)) else none)
       else getOne id (rest.drop (b.toNat % 16 + 1)) := by
-  rw [getOne]; simp [hb]
+  rw [getOne]; simp only [hb, if_false, c15StopIdGet_eq]
 
 theorem rebuild_nil (id : Nat) (e : Bytes) : rebuild id e [] = some ([], false) := by rw [rebuild]
 
@@ -83,7 +86,7 @@ theorem rebuild_cons {b : UInt8} (hb : b ≠ 0) (id : Nat) (e rest : Bytes) :
       else if b.toNat % 16 + 1 ≤ rest.length then
         (rebuild id e (rest.drop (b.toNat % 16 + 1))).map fun r => (b :: (rest.take (b.toNat % 16 + 1) ++ r.1), r.2)
       else none := by
-  rw [rebuild]; simp [hb]
+  rw [rebuild]; simp only [hb, if_false, c15StopIdSet_eq]
 
 theorem take_drop_helper (k : Nat) (rest o : Bytes) (h : k ≤ rest.length) :
     (rest.take k ++ o).take k = rest.take k ∧ (rest.take k ++ o).drop k = o ∧ k ≤ (rest.take k ++ o).length := by
@@ -317,5 +320,43 @@ theorem getTwo_encodeTwo (els : List (Nat × Bytes)) (hok : ∀ e ∈ els, Elem2
     have ih' := ih (fun x hx => hok x (List.mem_cons_of_mem _ hx))
     simp only [encodeTwo, List.flatMap_cons, List.cons_append, List.append_assoc, lookup] at ih' ⊢
     rw [getTwo_elem w, ih']
+
+/-! ### interior padding and the stop marker -/
+
+theorem getOne_pad (id k : Nat) (t : Bytes) : getOne id (List.replicate k 0 ++ t) = getOne id t := by
+  induction k with
+  | zero => simp
+  | succ k ih => rw [List.replicate_succ, List.cons_append, getOne_cons_zero, ih]
+
+/-- one-byte-header form with `pad` zero octets in front of each element -/
+def encodeOnePadded (els : List (Nat × Nat × Bytes)) : Bytes :=
+  els.flatMap fun e => List.replicate e.1 0 ++ oneByteElem' e.2.1 e.2.2
+
+def lookupP (id : Nat) : List (Nat × Nat × Bytes) → Option Bytes
+  | [] => none
+  | (_, k, d) :: rest => if k = id then some d else lookupP id rest
+
+/-- padding between elements is skipped; after the RFC 8285 stop element (id 15) nothing is read, whatever
+octets follow -/
+theorem getOne_encodeOnePadded (els : List (Nat × Nat × Bytes)) (hok : ∀ e ∈ els, ElemOk e.2.1 e.2.2) (id : Nat)
+    (tail : Bytes) (htail : getOne id tail = none) :
+    getOne id (encodeOnePadded els ++ tail) = lookupP id els := by
+  induction els with
+  | nil => simpa [encodeOnePadded, lookupP] using htail
+  | cons e els ih =>
+    obtain ⟨pad, eid, d⟩ := e
+    have w : ElemOk eid d := hok (pad, eid, d) (List.mem_cons_self ..)
+    have ih' := ih (fun x hx => hok x (List.mem_cons_of_mem _ hx))
+    simp only [encodeOnePadded, List.flatMap_cons, List.append_assoc, lookupP] at ih' ⊢
+    rw [getOne_pad]
+    simp only [oneByteElem', List.cons_append, List.append_assoc]
+    by_cases h : eid = id
+    · subst h; rw [if_pos rfl, getOne_elem_self w]
+    · rw [if_neg h, getOne_elem_other w (Ne.symm h)]
+      exact ih'
+
+theorem getOne_stop (id : Nat) (b : UInt8) (hb : b.toNat / 16 = 15) (junk : Bytes) : getOne id (b :: junk) = none := by
+  have hne : b ≠ 0 := by intro h; rw [h] at hb; simp at hb
+  rw [getOne_cons hne, if_pos hb]
 
 end RtcModel.C15
